@@ -56,10 +56,11 @@ class Tup:
 
 class Adt:
     """struct value; fields missing from fs are symbolic, named base+'.'+idx"""
-    __slots__ = ('name', 'fs', 'base')
+    __slots__ = ('name', 'fs', 'base', 'tys')
 
-    def __init__(self, name, fs, base=None):
+    def __init__(self, name, fs, base=None, tys=None):
         self.name, self.fs, self.base = name, dict(fs), base
+        self.tys = dict(tys) if tys else {}
 
     def __repr__(self):
         return 'Adt(%s,%r,%s)' % (self.name, self.fs, self.base)
@@ -667,14 +668,20 @@ class Engine:
                 x = a.fs.get(k)
                 y = b.fs.get(k)
                 if x is None or y is None:
-                    # the side lacking the field reads its symbolic base; without a type we
-                    # cannot build it here -> keep the defined one only if bases agree
+                    # the side lacking the field still reads its symbolic base value
                     if a.base == b.base and a.base is not None:
-                        raise Unsupported('merge of partially overwritten lazy struct ' + a.name)
-                    fs[k] = x if x is not None else y
+                        ty = a.tys.get(k) or b.tys.get(k)
+                        if ty is None or ty == '?':
+                            raise Unsupported('merge of partially overwritten lazy struct ' + a.name)
+                        basev = self.sym('%s.%d' % (a.base, k), ty, None)
+                        fs[k] = self.merge(c, x if x is not None else basev, y if y is not None else basev)
+                    else:
+                        fs[k] = x if x is not None else y
                 else:
                     fs[k] = self.merge(c, x, y)
-            return Adt(a.name, fs, a.base if a.base is not None else b.base)
+            tys = dict(b.tys)
+            tys.update(a.tys)
+            return Adt(a.name, fs, a.base if a.base is not None else b.base, tys)
         if isinstance(a, En) and isinstance(b, En):
             vs = {}
             for k in set(a.vs) | set(b.vs):
@@ -690,6 +697,13 @@ class Engine:
             if a.cell == b.cell and a.path == b.path:
                 return a
             return Opaque('merge of distinct references')
+        if isinstance(a, Seq) and isinstance(b, Seq) and len(a.elems) != len(b.elems) and a.prefix and b.prefix:
+            # different capacities (e.g. after a push on one path): positions beyond the shorter
+            # capacity can only be present on the longer side
+            lo, hi = (a, b) if len(a.elems) < len(b.elems) else (b, a)
+            k = len(lo.elems)
+            elems = [self.merge(c, x, y) for x, y in zip(a.elems[:k], b.elems[:k])] + list(hi.elems[k:])
+            return Seq(elems, If(c, a.n, b.n), a.ety)
         if isinstance(a, Seq) and isinstance(b, Seq) and len(a.elems) == len(b.elems):
             elems = [self.merge(c, x, y) for x, y in zip(a.elems, b.elems)]
             if a.prefix and b.prefix:
@@ -824,7 +838,9 @@ class Engine:
                     cur = self.sym('%s.%d' % (v.base, idx), ty, mem)
                 fs = dict(v.fs)
                 fs[idx] = self.write_path(cur, path[1:], new, mem, guard, where)
-                return Adt(v.name, fs, v.base)
+                tys = dict(v.tys)
+                tys[idx] = ty
+                return Adt(v.name, fs, v.base, tys)
             if v is None:
                 # building an aggregate field by field
                 return self.write_path(Adt('?', {}, None), path, new, mem, guard, where)
